@@ -133,6 +133,12 @@ def run_model(case, R):
             kappa[idx] = {'plain': rng.uniform(1, 20), 'large': 10 ** rng.uniform(2, 2.7), 'small': 10 ** rng.uniform(-8, -2), 'zero': 0.0 if not real else 1e-10}[kind]
         par = dict(mode=mode, kappa=kappa)
         x = oracles.unit(rng.standard_normal((*lead, n, D)) if real else gen.cnormal(rng, (*lead, n, D)))
+        if real:
+            # evaluation points of any length (the density normalises them); the first slice is "already normalised" as a
+            # single-precision front end leaves it (unit norm up to 1e-7): shortcuts deciding this for the whole tensor live here
+            x = x * 10 ** rng.uniform(-1, 1, size=(*lead, n, 1))
+            first = (0,) * len(lead)
+            x[first] = oracles.unit(x[first]).astype(np.float32).astype(np.float64)
     else:
         mean = rng.standard_normal((*lead, D)); cov = np.empty((*lead, D, D))
         for idx in np.ndindex(*lead):
@@ -222,6 +228,10 @@ def run_dist(case, R):
         flat[1] = flat[0] * (1 + np.eye(D)[ch] * 10 ** (rng.uniform(-5.5, -4) if fam == 'bingham' else rng.uniform(-9, -4)))
         y = flat.reshape(*lead, N, D)
     sal = rng.uniform(0.1, 1.0, size=(*lead, N)) if (case['saliency'] and fam != 'cacg') else None
+    if sal is not None and lead and case['rs'][-1] % 3 == 1:
+        # slices whose observation weights live at different levels (one recording 140 dB quieter than its neighbour): the level of the
+        # weights of a slice is free, and nothing of one slice may serve as the yardstick for another
+        sal = sal * 10.0 ** rng.uniform(-15, 15, size=(*lead, 1))
     x = (rng.standard_normal((*lead, 5, D)) if real else gen.cnormal(rng, (*lead, 5, D)))
     if fam == 'cacg':
         CACG_KW.update(covariance_norm=[None, 'eigenvalue', 'trace', False][int(rng.integers(1, 4))], eigenvalue_floor=float(rng.choice([1e-10, 0.05, 0.2])),
